@@ -16,4 +16,8 @@ def main (args : List String) : IO UInt32 := do
   | ["C11"] => Proto.runLoop C11.driverStep (); return 0
   | ["C08"] => Proto.runLoop C08.driverStep {}; return 0
   | ["C07"] => Proto.runLoop C07.driverStep (); return 0
+  | ["C04"] => Proto.runLoop C04.driverStep (); return 0
+  | ["C05"] => Proto.runLoop C05.driverStep (); return 0
+  | ["C01"] => Proto.runLoop C01.driverStep {}; return 0
+  | ["C18"] => Proto.runLoop (C18.driverStep C18.Generated.saveFns) {}; return 0
   | _ => IO.eprintln s!"unknown driver {args}"; return 2
